@@ -1032,6 +1032,15 @@ impl C15 {
                     Ok(bytes) => self.redecode(ev, "resp-parser-encode", what, v, &bytes, origin),
                 }
             }
+            // encoder 3: the persistent server's own encode_resp_into (src/bin/server_persistent.rs)
+            if crate::sp_bin::AVAILABLE {
+                if let Some(rv) = v_to_rv(v) {
+                    match catch_unwind(AssertUnwindSafe(|| crate::sp_bin::verif_encode_resp(&rv))) {
+                        Err(p) => ev.flag("C15/panic/persistent-server-encode".into(), format!("server_persistent encode_resp_into panicked on {}: {}", show_v(v), panic_msg(p)), None),
+                        Ok(bytes) => { ev.probe("persistent_server_encoder_checked"); self.redecode(ev, "persistent-server-encode", what, v, &bytes, origin) }
+                    }
+                }
+            }
             // encoder 2: RespCodec::encode
             let vz = v_to_vz(v);
             match catch_unwind(AssertUnwindSafe(|| RespCodec::encode(&vz))) {
@@ -1088,7 +1097,12 @@ impl C15 {
         cuts.sort(); cuts.dedup(); cuts.retain(|c| *c < wire.len());
         let stalls: BTreeSet<usize> = src.list(4, 1, 2, |s| s.idx(12)).into_iter().collect();
         let read_buf = *src.pick(&[8192usize, 1, 7, 64]);
-        ev.rep.log(ev.ctx.trace, || format!("handler session: {} commands ({} bytes) + tail {}, cuts {:?}, stalls before reads {:?}, read buffer {}, {} shards", cmds.len(), good, show(&tail), cuts, stalls, read_buf, shards));
+        // every third session goes through the persistent server's own connection loop and encoders
+        // (src/bin/server_persistent.rs, included as a module by build.rs) in front of a replicated node
+        let persistent = src.below(3) == 0;
+        if persistent && !crate::sp_bin::AVAILABLE { harness_fail(format!("C15 harness: src/bin/server_persistent.rs could not be included ({})", crate::sp_bin::PROBLEMS)); }
+        let who: &'static str = if persistent { "persistent-server-encoder" } else { "connection-encoder" };
+        ev.rep.log(ev.ctx.trace, || format!("handler session ({}): {} commands ({} bytes) + tail {}, cuts {:?}, stalls before reads {:?}, read buffer {}, {} shards", if persistent { "persistent server" } else { "optimized server" }, cmds.len(), good, show(&tail), cuts, stalls, read_buf, shards));
         let pipe = Rc::new(RefCell::new(Pipe::default()));
         { let mut p = pipe.borrow_mut(); let mut prev = 0; for c in cuts.iter().chain(std::iter::once(&wire.len())) { p.inbound.push_back(wire[prev..*c].to_vec()); prev = *c; } p.stall_before = stalls.clone(); }
         let rs_in = ref_stream(&wire);
@@ -1097,6 +1111,11 @@ impl C15 {
         let res = catch_unwind(AssertUnwindSafe(move || {
             rt::block_on(0xC15, async move {
                 verif_hooks::clock::set(1_700_000_000_000);
+                if persistent {
+                    let node = std::sync::Arc::new(redis_sim::production::ReplicatedShardedState::new(crate::model::cluster::repl_config(1, redis_sim::replication::ConsistencyLevel::Eventual)));
+                    let fut = crate::sp_bin::verif_handle_connection(SimStream(p2), node);
+                    return tokio::time::timeout(std::time::Duration::from_secs(3600), fut).await.is_ok();
+                }
                 let state = ShardedActorState::with_shards(shards);
                 let cfg = ConnectionConfig { read_buffer_size: read_buf, ..ConnectionConfig::default() };
                 let fut = verif_hooks::connection(SimStream(p2), state, cfg);
@@ -1113,12 +1132,13 @@ impl C15 {
                 // attribute: does the codec alone panic on these bytes (decode defect), or did the panic come after decoding?
                 let m = panic_msg(pm);
                 let alone = drive_codec(&wire, &[], false);
-                let key = if let End::Panic(_) = alone.end { format!("C15/panic/codec/{}", ev.label("codec", &wire, &rs_in, Fail::Panic)) } else { format!("C15/panic/handler/after-decode/{}", slug_msg(&m)) };
+                let key = if let End::Panic(_) = alone.end { format!("C15/panic/codec/{}", ev.label("codec", &wire, &rs_in, Fail::Panic)) } else { format!("C15/panic/{}/after-decode/{}", if persistent { "persistent-handler" } else { "handler" }, slug_msg(&m)) };
                 ev.flag(key, format!("the production connection handler panicked (the shipped profile aborts the server) on input {} delivered in pieces cut at {:?}: {} [RespCodec::parse alone on the same bytes: {} frames then {}]", show(&wire), cuts, m, alone.frames.len(), alone.end.kind()), None);
             }
             Ok(false) => harness_fail(format!("C15 harness: handler did not finish although EOF was queued (input {})", show(&wire))),
             Ok(true) => {
                 ev.probe("handler_session");
+                if persistent { ev.probe("persistent_server_session"); }
                 let out = &p.out;
                 let rs = ref_stream(out);
                 let clean = rs.tail == Tail::Clean;
@@ -1127,18 +1147,18 @@ impl C15 {
                 if hostile { ev.probe("handler_command_with_line_break_bytes"); }
                 let cmds_s = cmds.iter().map(|c| show_v(&command_value(c))).collect::<Vec<_>>().join(" ");
                 if (!clean || (tail.is_empty() && replies != cmds.len())) && hostile {
-                    ev.flag("C15/redecode/line-break-bytes-echoed/connection-encoder".into(), format!("handler given {} commands {} (one carries CR/LF bytes; tail {}) wrote {}: that reads back as {} canonical frames then {:?} - a reply with client bytes in a line value does not decode to itself", cmds.len(), cmds_s, show(&tail), show(out), replies, rs.tail), None);
+                    ev.flag(format!("C15/redecode/line-break-bytes-echoed/{}", who), format!("handler given {} commands {} (one carries CR/LF bytes; tail {}) wrote {}: that reads back as {} canonical frames then {:?} - a reply with client bytes in a line value does not decode to itself", cmds.len(), cmds_s, show(&tail), show(out), replies, rs.tail), None);
                 } else if !clean {
-                    ev.flag("C15/redecode/reply-stream-not-canonical/connection-encoder".into(), format!("handler given commands {} (+ tail {}) wrote {}: after {} canonical frames the rest is {:?} ({}) - some reply does not decode to itself", cmds_s, show(&tail), show(out), replies, rs.tail, rs.anomaly), None);
+                    ev.flag(format!("C15/redecode/reply-stream-not-canonical/{}", who), format!("handler given commands {} (+ tail {}) wrote {}: after {} canonical frames the rest is {:?} ({}) - some reply does not decode to itself", cmds_s, show(&tail), show(out), replies, rs.tail, rs.anomaly), None);
                 } else if tail.is_empty() && replies != cmds.len() {
-                    ev.flag("C15/redecode/reply-count/connection-encoder".into(), format!("handler given {} commands {} wrote {} canonical frames {}: a reply decodes into a different number of values than were emitted", cmds.len(), cmds_s, replies, show(out)), None);
+                    ev.flag(format!("C15/redecode/reply-count/{}", who), format!("handler given {} commands {} wrote {} canonical frames {}: a reply decodes into a different number of values than were emitted", cmds.len(), cmds_s, replies, show(out)), None);
                 } else if replies < cmds.len() {
                     ev.probe("handler_fewer_replies_than_commands_with_malformed_tail");
                 }
             }
         }
         ev.rep.nontrivial = !cmds.is_empty();
-        ev.rep.fingerprint = fnv(fnv(fnv(0, b"handler"), &wire), format!("{:?}{:?}{}", cuts, stalls, read_buf).as_bytes());
+        ev.rep.fingerprint = fnv(fnv(fnv(0, b"handler"), &wire), format!("{:?}{:?}{}{}", cuts, stalls, read_buf, persistent).as_bytes());
         ev.rep.sample = Some(json!({"mode": "handler", "commands": cmds.iter().take(4).map(|c| show_v(&command_value(c))).collect::<Vec<_>>(), "tail": show(&tail), "pieces": cuts.len() + 1, "reply_bytes": p.out.len()}));
     }
 }
@@ -1165,7 +1185,7 @@ impl Property for C15 {
         ]
     }
     fn required_probes(&self) -> Vec<&'static str> {
-        vec!["gen_stream_checked", "need_more_on_viable_prefix", "decided_nonstrict_input", "deep_nesting", "fragmented_4plus", "executor_reply_checked", "handler_session", "sweep_inputs", "random_input_with_type_byte"]
+        vec!["gen_stream_checked", "need_more_on_viable_prefix", "decided_nonstrict_input", "deep_nesting", "fragmented_4plus", "executor_reply_checked", "handler_session", "persistent_server_session", "persistent_server_encoder_checked", "sweep_inputs", "random_input_with_type_byte"]
     }
     fn runs(&self, tier: Tier) -> u64 { match tier { Tier::Quick => 3000, Tier::Thorough => 60_000 } }
 
